@@ -30,11 +30,13 @@ Definition tau_star_tot (P : program) : theory := match tau_star P with Some th 
 Definition mu_tot (P : program) : theory := match mu_full P with Some th => th | None => [] end.
 Definition simp_ht_tot (f : formula) : formula :=
   match apply_fixpoint (simplify_fuel f) (compose PORTFOLIO_HT) f with Some g => g | None => f end.
-Definition simp_classic_tot (f : formula) : formula :=
-  match apply_fixpoint classic_fuel (compose FULL_CLASSIC) f with Some g => g | None => f end.
+Definition simp_classic_tot_fuel (fuel : nat) (f : formula) : formula :=
+  match apply_fixpoint fuel (compose FULL_CLASSIC) f with Some g => g | None => f end.
+Definition simp_classic_tot : formula -> formula := simp_classic_tot_fuel classic_fuel.
 
-Definition strong_decompose_tot : strong_task -> list problem :=
-  strong_decompose tau_star_tot mu_tot simp_ht_tot simp_classic_tot.
+Definition strong_decompose_tot_fuel (fuel : nat) : strong_task -> list problem :=
+  strong_decompose tau_star_tot mu_tot simp_ht_tot (simp_classic_tot_fuel fuel).
+Definition strong_decompose_tot : strong_task -> list problem := strong_decompose_tot_fuel classic_fuel.
 
 (* ---------- the SOk case of the full model is the instantiated assembly ---------- *)
 Lemma smap_ok {A B} (f : A -> sresult B) (g : A -> B) : (forall x y, f x = SOk y -> g x = y) ->
@@ -65,19 +67,19 @@ Proof.
   induction (INTUITIONISTIC ++ HT) as [|r rs IH]; cbn [map]; constructor; [|exact IH].
   intros x y [= <-]. reflexivity.
 Qed.
-Lemma simp_classic_full_run x y : simp_classic_full x = SOk y ->
-  StrategyCls.run_strategy classic_fuel FULL_CLASSIC StrategyCls.Fixpoint_ x = Some y.
+Lemma simp_classic_full_run fuel x y : simp_classic_full_fuel fuel x = SOk y ->
+  StrategyCls.run_strategy fuel FULL_CLASSIC StrategyCls.Fixpoint_ x = Some y.
 Proof.
-  unfold simp_classic_full. intros E.
-  apply (run_strategy_opt_refines classic_fuel FULL_CLASSIC_opt FULL_CLASSIC StrategyCls.Fixpoint_ x y FULL_CLASSIC_opt_refines).
+  unfold simp_classic_full_fuel. intros E.
+  apply (run_strategy_opt_refines fuel FULL_CLASSIC_opt FULL_CLASSIC StrategyCls.Fixpoint_ x y FULL_CLASSIC_opt_refines).
   cbn [StrategyCls.run_strategy_opt].
-  destruct (StrategyCls.apply_fixpoint_opt classic_fuel (StrategyCls.compose_opt FULL_CLASSIC_opt) x); try discriminate.
+  destruct (StrategyCls.apply_fixpoint_opt fuel (StrategyCls.compose_opt FULL_CLASSIC_opt) x); try discriminate.
   injection E as ->. reflexivity.
 Qed.
-Lemma simp_classic_full_tot x y : simp_classic_full x = SOk y -> simp_classic_tot x = y.
+Lemma simp_classic_full_tot fuel x y : simp_classic_full_fuel fuel x = SOk y -> simp_classic_tot_fuel fuel x = y.
 Proof.
   intros E. apply simp_classic_full_run in E. cbn [StrategyCls.run_strategy] in E.
-  unfold simp_classic_tot. rewrite E. reflexivity.
+  unfold simp_classic_tot_fuel. rewrite E. reflexivity.
 Qed.
 
 Lemma repr_full_ok r P th : repr_full r P = SOk th ->
@@ -90,22 +92,25 @@ Proof.
     split; [reflexivity|]. apply tau_star_defined_iff. eauto.
 Qed.
 
-Theorem strong_decompose_full_ok t pbs : strong_decompose_full t = SOk pbs ->
-  pbs = strong_decompose_tot t /\ no_global_overflow (st_left t) /\ no_global_overflow (st_right t).
+Theorem strong_decompose_full_fuel_ok fuel t pbs : strong_decompose_full_fuel fuel t = SOk pbs ->
+  pbs = strong_decompose_tot_fuel fuel t /\ no_global_overflow (st_left t) /\ no_global_overflow (st_right t).
 Proof.
-  unfold strong_decompose_full, strong_decompose_tot, strong_decompose, strong_side.
+  unfold strong_decompose_full_fuel, strong_decompose_tot_fuel, strong_decompose, strong_side.
   destruct (repr_full (st_repr t) (st_left t)) as [l0| |] eqn:El0; cbn [sbind]; try discriminate.
   destruct (repr_full (st_repr t) (st_right t)) as [r0| |] eqn:Er0; cbn [sbind]; try discriminate.
   destruct (stage (st_simplify t) simp_ht_full l0) as [l1| |] eqn:El1; cbn [sbind]; try discriminate.
   destruct (stage (st_simplify t) simp_ht_full r0) as [r1| |] eqn:Er1; cbn [sbind]; try discriminate.
-  destruct (stage (st_simplify t) simp_classic_full (gamma_theory l1)) as [l3| |] eqn:El3; cbn [sbind]; try discriminate.
-  destruct (stage (st_simplify t) simp_classic_full (gamma_theory r1)) as [r3| |] eqn:Er3; cbn [sbind]; try discriminate.
+  destruct (stage (st_simplify t) (simp_classic_full_fuel fuel) (gamma_theory l1)) as [l3| |] eqn:El3; cbn [sbind]; try discriminate.
+  destruct (stage (st_simplify t) (simp_classic_full_fuel fuel) (gamma_theory r1)) as [r3| |] eqn:Er3; cbn [sbind]; try discriminate.
   intros [= <-].
   destruct (repr_full_ok _ _ _ El0) as [-> Hgl]. destruct (repr_full_ok _ _ _ Er0) as [-> Hgr].
-  apply (stage_ok _ _ _ simp_ht_full_tot) in El1, Er1. apply (stage_ok _ _ _ simp_classic_full_tot) in El3, Er3.
+  apply (stage_ok _ _ _ simp_ht_full_tot) in El1, Er1. apply (stage_ok _ _ _ (simp_classic_full_tot fuel)) in El3, Er3.
   subst l1 r1 l3 r3. split; [|split; assumption].
   destruct (st_repr t), (st_simplify t), (st_break t); reflexivity.
 Qed.
+Theorem strong_decompose_full_ok t pbs : strong_decompose_full t = SOk pbs ->
+  pbs = strong_decompose_tot t /\ no_global_overflow (st_left t) /\ no_global_overflow (st_right t).
+Proof. exact (strong_decompose_full_fuel_ok classic_fuel t pbs). Qed.
 
 (* ---------- the component facts ---------- *)
 Lemma simp_ht_tot_ok FI H T f : sub H T -> (hvalid FI H T (simp_ht_tot f) <-> hvalid FI H T f).
@@ -126,11 +131,11 @@ Lemma simp_ht_full_total f : exists g, simp_ht_full f = SOk g.
 Proof.
   unfold simp_ht_full, simplify_fuel, PORTFOLIO_HT. destruct (ht_fixpoint_terminates f) as [g E]. rewrite E. eauto.
 Qed.
-Lemma simp_classic_tot_ok FI M f : cvalid FI M (simp_classic_tot f) <-> cvalid FI M f.
+Lemma simp_classic_tot_ok fuel FI M f : cvalid FI M (simp_classic_tot_fuel fuel f) <-> cvalid FI M f.
 Proof.
-  unfold simp_classic_tot.
-  destruct (apply_fixpoint classic_fuel (compose FULL_CLASSIC) f) as [g|] eqn:E; [|reflexivity].
-  destruct (full_classic_strategies classic_fuel StrategyCls.Fixpoint_ f g E) as [Hc _].
+  unfold simp_classic_tot_fuel.
+  destruct (apply_fixpoint fuel (compose FULL_CLASSIC) f) as [g|] eqn:E; [|reflexivity].
+  destruct (full_classic_strategies fuel StrategyCls.Fixpoint_ f g E) as [Hc _].
   unfold cvalid. split; intros Hv e; apply Hc, Hv.
 Qed.
 Lemma tau_star_tot_vocab P f p : no_global_overflow P -> In f (tau_star_tot P) -> In p (predicates f) -> In p (program_preds P).
@@ -223,8 +228,9 @@ Proof.
 Qed.
 
 (* ---------- C03 for the end-to-end model ---------- *)
-Definition no_symbol_pred_clash_full : strong_task -> Prop :=
-  no_symbol_pred_clash tau_star_tot mu_tot simp_ht_tot simp_classic_tot.
+Definition no_symbol_pred_clash_full_fuel (fuel : nat) : strong_task -> Prop :=
+  no_symbol_pred_clash tau_star_tot mu_tot simp_ht_tot (simp_classic_tot_fuel fuel).
+Definition no_symbol_pred_clash_full : strong_task -> Prop := no_symbol_pred_clash_full_fuel classic_fuel.
 
 (* the premise is decidable: a boolean test on the model's own (pre-renaming) problems *)
 Definition no_clash_problemb (p : problem) : bool :=
@@ -239,20 +245,24 @@ Proof.
     destruct (memb_spec pred_dec (mkpred s 0) (problem_predicates p)) as [Hin|]; [|reflexivity].
     exfalso. exact (Hn a s Ha Hs Hin).
 Qed.
-Definition no_symbol_pred_clash_fullb (t : strong_task) : bool :=
+Definition no_symbol_pred_clash_fullb_fuel (fuel : nat) (t : strong_task) : bool :=
   let ta := transition_axioms (st_left t) (st_right t) in
-  let l := strong_side tau_star_tot mu_tot simp_ht_tot simp_classic_tot t (st_left t) in
-  let r := strong_side tau_star_tot mu_tot simp_ht_tot simp_classic_tot t (st_right t) in
+  let l := strong_side tau_star_tot mu_tot simp_ht_tot (simp_classic_tot_fuel fuel) t (st_left t) in
+  let r := strong_side tau_star_tot mu_tot simp_ht_tot (simp_classic_tot_fuel fuel) t (st_right t) in
   no_clash_problemb (strong_pre "forward" ta "left" l "right" r) &&
   no_clash_problemb (strong_pre "backward" ta "right" r "left" l).
-Lemma no_symbol_pred_clash_fullb_ok t : no_symbol_pred_clash_fullb t = true <-> no_symbol_pred_clash_full t.
+Definition no_symbol_pred_clash_fullb : strong_task -> bool := no_symbol_pred_clash_fullb_fuel classic_fuel.
+Lemma no_symbol_pred_clash_fullb_fuel_ok fuel t :
+  no_symbol_pred_clash_fullb_fuel fuel t = true <-> no_symbol_pred_clash_full_fuel fuel t.
 Proof.
-  unfold no_symbol_pred_clash_fullb, no_symbol_pred_clash_full, no_symbol_pred_clash, side.
+  unfold no_symbol_pred_clash_fullb_fuel, no_symbol_pred_clash_full_fuel, no_symbol_pred_clash, side.
   cbv zeta. rewrite andb_true_iff, !no_clash_problemb_ok. reflexivity.
 Qed.
+Lemma no_symbol_pred_clash_fullb_ok t : no_symbol_pred_clash_fullb t = true <-> no_symbol_pred_clash_full t.
+Proof. exact (no_symbol_pred_clash_fullb_fuel_ok classic_fuel t). Qed.
 
-Theorem C03_full_proof FI M (t : strong_task) pbs :
-  strong_decompose_full t = SOk pbs -> no_symbol_pred_clash_full t ->
+Theorem C03_full_fuel_proof fuel FI M (t : strong_task) pbs :
+  strong_decompose_full_fuel fuel t = SOk pbs -> no_symbol_pred_clash_full_fuel fuel t ->
   (refutes_some FI M pbs <->
    sub_on (strong_predicates (st_left t) (st_right t)) (H_of M) (T_of M) /\
    ((dir_forward (st_direction t) = true /\
@@ -260,10 +270,10 @@ Theorem C03_full_proof FI M (t : strong_task) pbs :
     (dir_backward (st_direction t) = true /\
      ref_sat (H_of M) (T_of M) (st_right t) /\ ~ ref_sat (H_of M) (T_of M) (st_left t)))).
 Proof.
-  intros Eok Hn. destruct (strong_decompose_full_ok t pbs Eok) as [-> [Hgl Hgr]].
-  unfold strong_decompose_tot.
-  rewrite (C03_partial_rel tau_star_tot mu_tot simp_ht_tot simp_classic_tot no_global_overflow
-             simp_ht_tot_ok simp_classic_tot_ok tau_star_tot_vocab mu_tot_vocab simp_ht_tot_vocab
+  intros Eok Hn. destruct (strong_decompose_full_fuel_ok fuel t pbs Eok) as [-> [Hgl Hgr]].
+  unfold strong_decompose_tot_fuel.
+  rewrite (C03_partial_rel tau_star_tot mu_tot simp_ht_tot (simp_classic_tot_fuel fuel) no_global_overflow
+             simp_ht_tot_ok (simp_classic_tot_ok fuel) tau_star_tot_vocab mu_tot_vocab simp_ht_tot_vocab
              tau_star_tot_adequate mu_tot_adequate FI M t Hgl Hgr Hn).
   split; intros [Hs Hx]; (split; [exact Hs|]);
     rewrite (ref_sat_Hc (st_left t) (st_right t) M (st_left t) Hs (in_strong_predicates_l _ _)),
@@ -271,62 +281,62 @@ Proof.
 Qed.
 
 (* the two one-directional readings *)
-Corollary C03_forward_proof FI M (t : strong_task) pbs :
-  st_direction t = DForward -> strong_decompose_full t = SOk pbs -> no_symbol_pred_clash_full t ->
+Corollary C03_forward_fuel_proof fuel FI M (t : strong_task) pbs :
+  st_direction t = DForward -> strong_decompose_full_fuel fuel t = SOk pbs -> no_symbol_pred_clash_full_fuel fuel t ->
   (refutes_some FI M pbs <->
    sub_on (strong_predicates (st_left t) (st_right t)) (H_of M) (T_of M) /\
    ref_sat (H_of M) (T_of M) (st_left t) /\ ~ ref_sat (H_of M) (T_of M) (st_right t)).
 Proof.
-  intros Hd Eok Hn. rewrite (C03_full_proof FI M t pbs Eok Hn), Hd. cbn [dir_forward dir_backward].
+  intros Hd Eok Hn. rewrite (C03_full_fuel_proof fuel FI M t pbs Eok Hn), Hd. cbn [dir_forward dir_backward].
   split; [intros [Hs [[_ Hx]|[Hf _]]]; [auto|discriminate]|intros [Hs Hx]; split; [exact Hs|left; auto]].
 Qed.
-Corollary C03_backward_proof FI M (t : strong_task) pbs :
-  st_direction t = DBackward -> strong_decompose_full t = SOk pbs -> no_symbol_pred_clash_full t ->
+Corollary C03_backward_fuel_proof fuel FI M (t : strong_task) pbs :
+  st_direction t = DBackward -> strong_decompose_full_fuel fuel t = SOk pbs -> no_symbol_pred_clash_full_fuel fuel t ->
   (refutes_some FI M pbs <->
    sub_on (strong_predicates (st_left t) (st_right t)) (H_of M) (T_of M) /\
    ref_sat (H_of M) (T_of M) (st_right t) /\ ~ ref_sat (H_of M) (T_of M) (st_left t)).
 Proof.
-  intros Hd Eok Hn. rewrite (C03_full_proof FI M t pbs Eok Hn), Hd. cbn [dir_forward dir_backward].
+  intros Hd Eok Hn. rewrite (C03_full_fuel_proof fuel FI M t pbs Eok Hn), Hd. cbn [dir_forward dir_backward].
   split; [intros [Hs [[Hf _]|[_ Hx]]]; [discriminate|auto]|intros [Hs Hx]; split; [exact Hs|right; auto]].
 Qed.
 
 (* all problems are theorems (no classical interpretation of the h/t vocabulary refutes any of
    them) exactly when the programs have the same HT models: strong equivalence *)
-Theorem C03_strong_proof (t : strong_task) pbs :
-  st_direction t = DUniversal -> strong_decompose_full t = SOk pbs -> no_symbol_pred_clash_full t ->
+Theorem C03_strong_fuel_proof fuel (t : strong_task) pbs :
+  st_direction t = DUniversal -> strong_decompose_full_fuel fuel t = SOk pbs -> no_symbol_pred_clash_full_fuel fuel t ->
   ((forall FI M, ~ refutes_some FI M pbs) <->
    (forall H T, sub H T -> (ref_sat H T (st_left t) <-> ref_sat H T (st_right t)))).
 Proof.
-  intros Hd Eok Hn. destruct (strong_decompose_full_ok t pbs Eok) as [-> [Hgl Hgr]].
-  exact (C03_strong_partial_rel tau_star_tot mu_tot simp_ht_tot simp_classic_tot no_global_overflow
-           simp_ht_tot_ok simp_classic_tot_ok tau_star_tot_vocab mu_tot_vocab simp_ht_tot_vocab
+  intros Hd Eok Hn. destruct (strong_decompose_full_fuel_ok fuel t pbs Eok) as [-> [Hgl Hgr]].
+  exact (C03_strong_partial_rel tau_star_tot mu_tot simp_ht_tot (simp_classic_tot_fuel fuel) no_global_overflow
+           simp_ht_tot_ok (simp_classic_tot_ok fuel) tau_star_tot_vocab mu_tot_vocab simp_ht_tot_vocab
            tau_star_tot_adequate mu_tot_adequate t Hgl Hgr Hn Hd).
 Qed.
 
 (* ---------- C19 for strong tasks, closed ---------- *)
-Theorem C19_strong_proof (t t' : strong_task) pbs pbs' :
+Theorem C19_strong_fuel_proof fuel (t t' : strong_task) pbs pbs' :
   same_claim t t' ->
-  strong_decompose_full t = SOk pbs -> strong_decompose_full t' = SOk pbs' ->
-  no_symbol_pred_clash_full t -> no_symbol_pred_clash_full t' ->
+  strong_decompose_full_fuel fuel t = SOk pbs -> strong_decompose_full_fuel fuel t' = SOk pbs' ->
+  no_symbol_pred_clash_full_fuel fuel t -> no_symbol_pred_clash_full_fuel fuel t' ->
   forall FI M, refutes_some FI M pbs <-> refutes_some FI M pbs'.
 Proof.
   intros Hsame Eok Eok' Hn Hn' FI M.
-  destruct (strong_decompose_full_ok t pbs Eok) as [-> [Hgl Hgr]].
-  destruct (strong_decompose_full_ok t' pbs' Eok') as [-> _].
-  exact (C19_strong_modulo_simplify_rel tau_star_tot mu_tot simp_ht_tot simp_classic_tot no_global_overflow
-           simp_ht_tot_ok simp_classic_tot_ok tau_star_tot_vocab mu_tot_vocab simp_ht_tot_vocab
+  destruct (strong_decompose_full_fuel_ok fuel t pbs Eok) as [-> [Hgl Hgr]].
+  destruct (strong_decompose_full_fuel_ok fuel t' pbs' Eok') as [-> _].
+  exact (C19_strong_modulo_simplify_rel tau_star_tot mu_tot simp_ht_tot (simp_classic_tot_fuel fuel) no_global_overflow
+           simp_ht_tot_ok (simp_classic_tot_ok fuel) tau_star_tot_vocab mu_tot_vocab simp_ht_tot_vocab
            t t' Hgl Hgr Hsame Hn Hn' FI M).
 Qed.
 
 (* ---------- when does the full model return? ---------- *)
 (* without the simplify flag: exactly outside the overflow class *)
-Theorem strong_decompose_full_nosimplify t : st_simplify t = false ->
-  ((exists pbs, strong_decompose_full t = SOk pbs) <->
+Theorem strong_decompose_full_fuel_nosimplify fuel t : st_simplify t = false ->
+  ((exists pbs, strong_decompose_full_fuel fuel t = SOk pbs) <->
    no_global_overflow (st_left t) /\ no_global_overflow (st_right t)).
 Proof.
   intros Hs. split.
-  - intros [pbs E]. destruct (strong_decompose_full_ok t pbs E) as [_ H]. exact H.
-  - intros [Hl Hr]. unfold strong_decompose_full. rewrite Hs. cbn [stage].
+  - intros [pbs E]. destruct (strong_decompose_full_fuel_ok fuel t pbs E) as [_ H]. exact H.
+  - intros [Hl Hr]. unfold strong_decompose_full_fuel. rewrite Hs. cbn [stage].
     assert (Hrep : forall P, no_global_overflow P -> exists th, repr_full (st_repr t) P = SOk th).
     { intros P HP. unfold repr_full. destruct (st_repr t).
       - destruct (proj2 (mu_full_defined_iff P) HP) as [th ->]. cbn. eauto.
@@ -334,10 +344,10 @@ Proof.
     destruct (Hrep _ Hl) as [l0 ->]. destruct (Hrep _ Hr) as [r0 ->]. cbn [sbind]. eauto.
 Qed.
 (* the only panic before the post-gamma simplification is the overflow class *)
-Theorem strong_decompose_full_panic_overflow t :
-  ~ no_global_overflow (st_left t) \/ ~ no_global_overflow (st_right t) -> strong_decompose_full t = SPanic.
+Theorem strong_decompose_full_fuel_panic_overflow fuel t :
+  ~ no_global_overflow (st_left t) \/ ~ no_global_overflow (st_right t) -> strong_decompose_full_fuel fuel t = SPanic.
 Proof.
-  intros Hov. unfold strong_decompose_full.
+  intros Hov. unfold strong_decompose_full_fuel.
   assert (Hrep : forall P, ~ no_global_overflow P -> repr_full (st_repr t) P = SPanic).
   { intros P HP. unfold repr_full. destruct (st_repr t).
     - destruct (mu_full P) as [th|] eqn:E; [|reflexivity]. exfalso. apply HP, mu_full_defined_iff. eauto.
@@ -349,3 +359,44 @@ Proof.
     { unfold repr_full. destruct (match st_repr t with ReprMu => _ | ReprTauStar => _ end); cbn; eauto. }
     destruct Hc as [->|[th ->]]; reflexivity.
 Qed.
+
+(* ---------- the statements at the executable fuel (the instance that is extracted) ---------- *)
+Theorem C03_full_proof FI M (t : strong_task) pbs :
+  strong_decompose_full t = SOk pbs -> no_symbol_pred_clash_full t ->
+  (refutes_some FI M pbs <->
+   sub_on (strong_predicates (st_left t) (st_right t)) (H_of M) (T_of M) /\
+   ((dir_forward (st_direction t) = true /\
+     ref_sat (H_of M) (T_of M) (st_left t) /\ ~ ref_sat (H_of M) (T_of M) (st_right t)) \/
+    (dir_backward (st_direction t) = true /\
+     ref_sat (H_of M) (T_of M) (st_right t) /\ ~ ref_sat (H_of M) (T_of M) (st_left t)))).
+Proof. exact (C03_full_fuel_proof classic_fuel FI M t pbs). Qed.
+Corollary C03_forward_proof FI M (t : strong_task) pbs :
+  st_direction t = DForward -> strong_decompose_full t = SOk pbs -> no_symbol_pred_clash_full t ->
+  (refutes_some FI M pbs <->
+   sub_on (strong_predicates (st_left t) (st_right t)) (H_of M) (T_of M) /\
+   ref_sat (H_of M) (T_of M) (st_left t) /\ ~ ref_sat (H_of M) (T_of M) (st_right t)).
+Proof. exact (C03_forward_fuel_proof classic_fuel FI M t pbs). Qed.
+Corollary C03_backward_proof FI M (t : strong_task) pbs :
+  st_direction t = DBackward -> strong_decompose_full t = SOk pbs -> no_symbol_pred_clash_full t ->
+  (refutes_some FI M pbs <->
+   sub_on (strong_predicates (st_left t) (st_right t)) (H_of M) (T_of M) /\
+   ref_sat (H_of M) (T_of M) (st_right t) /\ ~ ref_sat (H_of M) (T_of M) (st_left t)).
+Proof. exact (C03_backward_fuel_proof classic_fuel FI M t pbs). Qed.
+Theorem C03_strong_proof (t : strong_task) pbs :
+  st_direction t = DUniversal -> strong_decompose_full t = SOk pbs -> no_symbol_pred_clash_full t ->
+  ((forall FI M, ~ refutes_some FI M pbs) <->
+   (forall H T, sub H T -> (ref_sat H T (st_left t) <-> ref_sat H T (st_right t)))).
+Proof. exact (C03_strong_fuel_proof classic_fuel t pbs). Qed.
+Theorem C19_strong_proof (t t' : strong_task) pbs pbs' :
+  same_claim t t' ->
+  strong_decompose_full t = SOk pbs -> strong_decompose_full t' = SOk pbs' ->
+  no_symbol_pred_clash_full t -> no_symbol_pred_clash_full t' ->
+  forall FI M, refutes_some FI M pbs <-> refutes_some FI M pbs'.
+Proof. exact (C19_strong_fuel_proof classic_fuel t t' pbs pbs'). Qed.
+Theorem strong_decompose_full_nosimplify t : st_simplify t = false ->
+  ((exists pbs, strong_decompose_full t = SOk pbs) <->
+   no_global_overflow (st_left t) /\ no_global_overflow (st_right t)).
+Proof. exact (strong_decompose_full_fuel_nosimplify classic_fuel t). Qed.
+Theorem strong_decompose_full_panic_overflow t :
+  ~ no_global_overflow (st_left t) \/ ~ no_global_overflow (st_right t) -> strong_decompose_full t = SPanic.
+Proof. exact (strong_decompose_full_fuel_panic_overflow classic_fuel t). Qed.
